@@ -114,8 +114,19 @@ impl PartialOrd for Numeric {
                 Some(std::cmp::Ordering::Equal) => None,
                 other => other,
             }
-        } else if let Some(scaled) = other.as_unitset(&self.unit) {
-            self.value.partial_cmp(&scaled)
+        } else if let Some(scale) = other.unit.scale_to(&self.unit) {
+            // Always convert towards the smaller unit (the operand whose
+            // magnitude grows), whichever side it is on.  That way both
+            // `a.partial_cmp(b)` and `b.partial_cmp(a)` compare the same
+            // two magnitudes and `==`, `<` and `>` stay consistent when
+            // the operands are swapped.
+            if scale >= 1. {
+                self.value
+                    .partial_cmp(&(&other.value * &Number::from(scale)))
+            } else {
+                let back = self.unit.scale_to(&other.unit)?;
+                (&self.value * &Number::from(back)).partial_cmp(&other.value)
+            }
         } else {
             None
         }
